@@ -251,3 +251,86 @@ Proof.
   by rewrite mxo_identity.
 Qed.
 End QR.
+
+(* ---------------------------------------------------------------- cores of the parts delivered
+   as `_partial` (pure matrix algebra; not yet connected to the list-level transcription) *)
+
+(* Cholesky completeness core: if the leading block is L L^T with L invertible, the new
+   off-diagonal part l solves L l = c and the bordered matrix is positive definite, then the next
+   pivot a - l^T l is positive: the `<= 0 -> None` exit is not taken. *)
+Section Pivot.
+Variable F : realFieldType.
+Variable n : nat.
+Variable L : 'M[F]_n.
+Variable l : 'cV[F]_n.
+Variable a : F.
+Hypothesis Lunit : L \in unitmx.
+
+Definition bordered : 'M[F]_(n + 1) :=
+  block_mx (L *m L^T) (L *m l) ((L *m l)^T) (a%:M).
+
+Definition posdef m (B : 'M[F]_m) := forall x : 'cV[F]_m, x != 0 -> 0 < (x^T *m B *m x) 0 0.
+
+Theorem next_pivot_positive : posdef bordered -> 0 < a - (l^T *m l) 0 0.
+Proof.
+  move=> pd.
+  have [y Ly] : exists y : 'cV[F]_n, L^T *m y = l.
+  { exists (invmx (L^T) *m l). by rewrite mulKVmx // unitmx_tr. }
+  have yL : y^T *m L = l^T by rewrite -Ly trmx_mul trmxK.
+  pose x : 'cV[F]_(n + 1) := col_mx (- y) (1%:M : 'M_1).
+  have xn0 : x != 0.
+  { apply/eqP => x0. have : dsubmx x = 0 by rewrite x0 linear0.
+    rewrite /x col_mxKd => /matrixP /(_ ord0 ord0). rewrite !mxE eqxx /=.
+    by move/eqP; rewrite oner_eq0. }
+  have := pd x xn0.
+  have -> : (x^T *m bordered *m x) 0 0 = a - (l^T *m l) 0 0; last by [].
+  rewrite /x /bordered tr_col_mx mul_row_block mul_row_col.
+  have E1 : (- y)^T *m (L *m L^T) + (1%:M)^T *m (L *m l)^T = 0.
+  { by rewrite linearN /= mulNmx mulmxA yL trmx1 mul1mx trmx_mul addNr. }
+  have E2 : (- y)^T *m (L *m l) + (1%:M)^T *m a%:M = a%:M - l^T *m l.
+  { by rewrite linearN /= mulNmx mulmxA yL trmx1 mul1mx addrC. }
+  by rewrite E1 E2 mul0mx add0r mulmx1 !mxE eqxx mulr1n.
+Qed.
+End Pivot.
+
+(* QR triangularity core: with u = x + a e, e^T e = 1, a^2 = x^T x and a^2 + a (e^T x) <> 0,
+   the reflection I - (2 / u^T u) u u^T maps x to - a e (every entry of the column below the first
+   is annihilated). *)
+Section Reflect.
+Variable F : fieldType.
+Variable n : nat.
+Variables (x e : 'cV[F]_n) (a x0 : F).
+Hypothesis ee : e^T *m e = 1%:M.
+Hypothesis ex : e^T *m x = x0%:M.
+Hypothesis xe : x^T *m e = x0%:M.
+Hypothesis xx : x^T *m x = (a * a)%:M.
+
+Definition uvec : 'cV[F]_n := x + a *: e.
+Definition tval : F := a * a + a * x0.
+Hypothesis t0 : tval != 0.
+Hypothesis two0 : (2%:R : F) != 0.
+
+Lemma ux : uvec^T *m x = tval%:M.
+Proof.
+  rewrite /uvec /tval linearD /= linearZ /= mulmxDl -scalemxAl xx ex scale_scalar_mx.
+  by rewrite -raddfD.
+Qed.
+
+Lemma uu : uvec^T *m uvec = (2%:R * tval)%:M.
+Proof.
+  rewrite {2}/uvec mulmxDr -scalemxAr ux.
+  rewrite /uvec linearD /= linearZ /= mulmxDl -scalemxAl xe ee.
+  rewrite !scale_scalar_mx mulr1 scalerDr !scale_scalar_mx -!raddfD /=.
+  congr (_%:M). rewrite /tval mulr2n mulrDl mul1r. by rewrite [a * x0 + _]addrC.
+Qed.
+
+Definition Hmx : 'M[F]_n := 1%:M - (2%:R / (2%:R * tval)) *: (uvec *m uvec^T).
+
+Theorem reflect : Hmx *m x = - (a *: e).
+Proof.
+  rewrite /Hmx mulmxBl mul1mx -scalemxAl -mulmxA ux mul_mx_scalar scalerA.
+  have -> : 2%:R / (2%:R * tval) * tval = 1.
+  { rewrite invfM mulrA mulfV // mul1r mulVf //. }
+  by rewrite scale1r /uvec opprD addrA subrr sub0r.
+Qed.
+End Reflect.
